@@ -9,7 +9,8 @@
    premise about the outside world.  Neg/And/Or/Nnf/Dnf/Invariant/Replace/Unique are the model
    functions of Formula.__neg__/__and__/__or__, convert_to_nnf, convert_to_dnf,
    ISLaSolver.establish_invariant, replace_formula, ensure_unique_bound_variables.
-   `fixed = false` is the pinned code, `fixed = true` the code after proposed fix C09-dnf-nary. *)
+   The model mirrors /repo after the fix: commits 71bb9ab (convert_to_dnf iterates over whole
+   product combinations; formerly ValueError on conjunctions with != 2 arguments). *)
 From Coq Require Import List Bool.
 From ISLA Require Import Rewrite RewriteFacts.
 Import ListNotations.
@@ -52,85 +53,70 @@ Theorem C09_nnf : forall A E (O : ops A) (S : sem A E), atoms_sound O S ->
 Proof. exact nnf_sound. Qed.
 Print Assumptions C09_nnf.
 
-(* shape: the output satisfies the precondition of convert_to_dnf (no negation on a connective,
-   binary conjunctions) everywhere EXCEPT inside the quantifier bodies nnf does not traverse
-   (bodies of un-negated quantifiers) - those must be safe already (`bodies_safe`) *)
-Theorem C09_nnf_shape : forall A (O : ops A) fixed (f : formula A) neg,
-  bodies_safe fixed neg f = true -> dsafe fixed (Nnf O f neg) = true.
+(* shape: the output satisfies the precondition of convert_to_dnf (no negation on a connective)
+   everywhere EXCEPT inside the quantifier bodies nnf does not traverse (bodies of un-negated
+   quantifiers) - those must be safe already (`bodies_safe`) *)
+Theorem C09_nnf_shape : forall A (O : ops A) (f : formula A) neg,
+  bodies_safe neg f = true -> dsafe (Nnf O f neg) = true.
 Proof. exact nnf_dsafe. Qed.
 Print Assumptions C09_nnf_shape.
 
 (* ---- disjunctive normal form ---- *)
-(* whenever convert_to_dnf returns, the verdict is unchanged (pinned and fixed code, deep or not) *)
+(* whenever convert_to_dnf returns, the verdict is unchanged (deep or not) *)
 Theorem C09_dnf : forall A E (O : ops A) (S : sem A E), atoms_sound O S ->
-  forall fixed (f : formula A) deep g, Dnf O fixed deep f = Ok g -> forall e, ev S e g = ev S e f.
+  forall (f : formula A) deep g, Dnf O deep f = Ok g -> forall e, ev S e g = ev S e f.
 Proof. exact dnf_sound. Qed.
 Print Assumptions C09_dnf.
 
-(* FULL STATEMENT (false on the pinned code): convert_to_dnf does not raise on any formula
-   that is in negation normal form at the positions it visits:
-     forall f deep, K_dnf_not_nnf f = false -> exists g, Dnf O false deep f = Ok g.
-   Refuted by ConjunctiveFormula(a, b | c, d): `for left, right in itertools.product(...)`
-   raises ValueError for a visited conjunction with != 2 arguments. *)
-Theorem C09_dnf_total_refuted : exists f : cform,
-  arity_ok catom f = true /\ K_dnf_not_nnf f = false /\ K_dnf_nary f = true /\
-  Dnf cops false true f = Raise ValueErr.
-Proof. exact dnf_total_refuted. Qed.
-Print Assumptions C09_dnf_total_refuted.
+(* FULL STATEMENT (holds since /repo commit 71bb9ab; was refuted on the pinned snapshot by
+   ConjunctiveFormula(a, b | c, d) -> ValueError): convert_to_dnf does not raise on any formula,
+   of any arity, that is in negation normal form at the positions it visits *)
+Theorem C09_dnf_total : forall A (O : ops A) deep (f : formula A),
+  K_dnf_not_nnf f = false -> exists g, Dnf O deep f = Ok g.
+Proof. exact dnf_total. Qed.
+Print Assumptions C09_dnf_total.
 
-(* PARTIAL: outside the class K_dnf_nary (some visited conjunction has != 2 arguments) *)
-Theorem C09_dnf_total_partial : forall A (O : ops A) deep (f : formula A),
-  K_dnf_not_nnf f = false -> K_dnf_nary f = false -> exists g, Dnf O false deep f = Ok g.
-Proof. exact dnf_total_partial. Qed.
-Print Assumptions C09_dnf_total_partial.
+(* corpus (non-vacuity of C09_dnf_total on the formerly refuted class): the old witnesses convert *)
+Example C09_dnf_nary_corpus :
+  arity_ok catom w_nary = true /\ K_dnf_not_nnf w_nary = false /\
+  (exists g, Dnf cops true w_nary = Ok g /\ dsafe g = true) /\
+  (exists g, Dnf cops false w_nary = Ok g) /\
+  (exists l, Invariant cops w_inv_nary = Ok l /\ length l = 2).
+Proof. exact dnf_nary_corpus. Qed.
+Print Assumptions C09_dnf_nary_corpus.
 
-Example C09_dnf_total_partial_nonvacuous :
-  K_dnf_not_nnf (FAnd [at_a; FOr [at_b; at_c]]) = false /\ K_dnf_nary (FAnd [at_a; FOr [at_b; at_c]]) = false.
-Proof. split; reflexivity. Qed.
-Print Assumptions C09_dnf_total_partial_nonvacuous.
-
-(* with proposed fix C09-dnf-nary the full statement holds *)
-Theorem C09_dnf_total_fixed : forall A (O : ops A) deep (f : formula A),
-  K_dnf_not_nnf f = false -> exists g, Dnf O true deep f = Ok g.
-Proof. exact dnf_total_fixed. Qed.
-Print Assumptions C09_dnf_total_fixed.
-
-(* exactly which exceptions convert_to_dnf can raise, and on which inputs *)
-Theorem C09_dnf_raises : forall A (O : ops A) fixed deep (f : formula A) e,
-  Dnf O fixed deep f = Raise e ->
-  (e = AssertErr /\ K_dnf_not_nnf f = true) \/ (e = ValueErr /\ fixed = false /\ dsafe false f = false).
+(* the only exception convert_to_dnf can raise is the AssertionError of its documented
+   precondition, and only on input that violates it *)
+Theorem C09_dnf_raises : forall A (O : ops A) deep (f : formula A) e,
+  Dnf O deep f = Raise e -> e = AssertErr /\ K_dnf_not_nnf f = true.
 Proof. exact dnf_raises. Qed.
 Print Assumptions C09_dnf_raises.
 
 (* ---- the solver's use: establish_invariant = split_disjunction(dnf(nnf(f), deep=False)) ---- *)
 (* it cannot raise when the quantifier bodies that nnf leaves untouched are safe ... *)
-Theorem C09_invariant_ok : forall A (O : ops A) fixed (f : formula A),
-  bodies_safe fixed false f = true -> exists l, Invariant O fixed f = Ok l.
+Theorem C09_invariant_ok : forall A (O : ops A) (f : formula A),
+  bodies_safe false f = true -> exists l, Invariant O f = Ok l.
 Proof. exact invariant_ok. Qed.
 Print Assumptions C09_invariant_ok.
 
 Example C09_invariant_ok_nonvacuous :
-  bodies_safe false false (FAnd [FNot (FForall v_x (InVar v_start) None w_nary); FOr [at_c; at_d]]) = true.
+  bodies_safe false (FAnd [FNot (FForall v_x (InVar v_start) None w_nary); FOr [at_c; at_d]]) = true.
 Proof. exact bodies_safe_example. Qed.
 Print Assumptions C09_invariant_ok_nonvacuous.
 
 (* ... in particular on every formula without tree quantifiers (any arity, any nesting, any negations) *)
-Theorem C09_invariant_ok_quantifier_free : forall A (O : ops A) fixed (f : formula A),
-  no_tree_quant f = true -> exists l, Invariant O fixed f = Ok l.
+Theorem C09_invariant_ok_quantifier_free : forall A (O : ops A) (f : formula A),
+  no_tree_quant f = true -> exists l, Invariant O f = Ok l.
 Proof. exact invariant_ok_no_tree_quant. Qed.
 Print Assumptions C09_invariant_ok_quantifier_free.
 
-(* FULL STATEMENT (false): establish_invariant never raises.  Two refutations: an untouched
-   quantifier body with a 3-ary conjunction over a disjunction (ValueError; repaired by the fix),
-   and an untouched body NegatedFormula(a & b) (AssertionError; not repaired by the fix, because
-   the recursive calls of convert_to_dnf use deep=True on conjuncts even when deep=False was asked) *)
-Theorem C09_invariant_refuted_nary : exists f : cform,
-  arity_ok catom f = true /\ Invariant cops false f = Raise ValueErr.
-Proof. exact invariant_refuted_nary. Qed.
-Print Assumptions C09_invariant_refuted_nary.
-
+(* FULL STATEMENT (false): establish_invariant never raises.  Refutation (open finding
+   dnf-body-not-nnf): an untouched quantifier body NegatedFormula(a & b) -> AssertionError,
+   because the recursive calls of convert_to_dnf use deep=True on conjuncts even when
+   deep=False was asked, and convert_to_nnf does not traverse un-negated quantifier bodies.
+   PARTIAL = C09_invariant_ok (guard bodies_safe). *)
 Theorem C09_invariant_refuted_not_nnf : exists f : cform,
-  arity_ok catom f = true /\ forall fixed, Invariant cops fixed f = Raise AssertErr.
+  arity_ok catom f = true /\ Invariant cops f = Raise AssertErr.
 Proof. exact invariant_refuted_not_nnf. Qed.
 Print Assumptions C09_invariant_refuted_not_nnf.
 
